@@ -22,21 +22,6 @@ Lemma split3 (a b : nat) (d : bytes) : (a <= b <= length d)%nat ->
   firstn a d ++ firstn (b - a) (skipn a d) ++ skipn b d = d.
 Proof. intros H. rewrite app_assoc, firstn_skipn_slices by lia. apply firstn_skipn. Qed.
 
-Lemma off_spk_size_nonneg t : 0 <= off_spk_size t.
-Proof.
-  unfold off_spk_size.
-  destruct (in_dec Z.eq_dec t (flat_map fst sw_offline_signature_SigningPublicKeySize)) as [I|N].
-  - cbn in I. repeat (destruct I as [<-|I]; [vm_compute; discriminate|]). destruct I.
-  - rewrite sw_lookup_notin by exact N. vm_compute. discriminate.
-Qed.
-Lemma off_sig_size_nonneg t : 0 <= off_sig_size t.
-Proof.
-  unfold off_sig_size.
-  destruct (in_dec Z.eq_dec t (flat_map fst sw_offline_signature_SignatureSize)) as [I|N].
-  - cbn in I. repeat (destruct I as [<-|I]; [vm_compute; discriminate|]). destruct I.
-  - rewrite sw_lookup_notin by exact N. vm_compute. discriminate.
-Qed.
-
 (* shape of an accepted offline signature *)
 Lemma read_offline_shape d dt o r : read_offline_signature d dt = Ok (o, r) ->
   exists ks ss, (6 <= length d)%nat /\ off_spk_size (Z.of_N (be_decode (firstn 2 (skipn 4 d)))) = Z.of_nat ks /\
